@@ -5,6 +5,11 @@
 //! chains around the documented limit. Malformed trees: every single mutation of every small
 //! valid tree. `get_pages()` on trees with an extreme /Count runs in child processes of this
 //! binary (`--part child <file> <from>`) under an address-space limit, never in the main process.
+//! Wide trees (hundreds to thousands of kids). History: one Document value is enumerated, edited
+//! through its public fields (whole trees exchanged, or single edits) or by its mutating methods,
+//! and enumerated again - every enumeration must describe the tree the document has at that
+//! moment. Reference chains: every link of the tree reached through 0..128 hops of bare-reference
+//! objects (exact verdict) and beyond the documented limit (termination and type safety only).
 use lopdf::{Dictionary, Document, Object, ObjectId};
 use serde_json::{json, Value};
 use std::collections::BTreeMap;
@@ -886,6 +891,81 @@ fn explore_chains(run: &Run, max_calls: &AtomicU64, watch: &Watch) {
 }
 
 // ---------------------------------------------------------------------------------------------
+// wide trees: many kids per node
+
+/// "flat": the root holds `width` pages; "two_level": the root holds ceil(sqrt(width)) Pages nodes
+/// that share `width` pages, each followed by one page of the root; "mixed": pages and empty
+/// Pages nodes alternate under the root.
+fn wide_tree(form: &str, width: usize, indirect: bool) -> Tree {
+    let pk = if indirect { Kind::PagesInd } else { Kind::Pages };
+    let mut parent: Vec<Option<usize>> = vec![None];
+    let mut kind = vec![pk];
+    match form {
+        "flat" => {
+            for _ in 0..width {
+                parent.push(Some(0));
+                kind.push(Kind::Page);
+            }
+        }
+        "two_level" => {
+            let groups = (width as f64).sqrt().ceil() as usize;
+            let mut left = width;
+            for g in 0..groups {
+                let take = left.div_ceil(groups - g);
+                left -= take;
+                parent.push(Some(0));
+                kind.push(pk);
+                let me = parent.len() - 1;
+                for _ in 0..take {
+                    parent.push(Some(me));
+                    kind.push(Kind::Page);
+                }
+                parent.push(Some(0));
+                kind.push(Kind::Page);
+            }
+        }
+        "mixed" => {
+            for i in 0..width {
+                parent.push(Some(0));
+                kind.push(if i % 2 == 0 { Kind::Page } else { pk });
+            }
+        }
+        _ => machinery("unknown wide form"),
+    }
+    Tree::from_parents(&parent, kind)
+}
+
+fn explore_wide(run: &Run, max_calls: &AtomicU64, watch: &Watch) {
+    let mut widths = vec![255usize, 256, 257, 1000];
+    if run.thorough {
+        widths.extend([1023, 1024, 1025, 4096, 20000]);
+    }
+    let mut work = vec![];
+    for &w in &widths {
+        for form in ["flat", "two_level", "mixed"] {
+            for indirect in [false, true] {
+                for rev in [false, true] {
+                    work.push((form, w, indirect, rev));
+                }
+            }
+        }
+    }
+    util::par_for(work.len(), |i| {
+        let (form, w, indirect, rev) = work[i];
+        let t = wide_tree(form, w, indirect);
+        let b = build(&t, rev);
+        let want = expected_pages(&t, &b);
+        let case = json!({"kind": "wide", "form": form, "width": w, "indirect": indirect, "rev": rev});
+        run.eval(2);
+        run.nontrivial(1);
+        run.add("wide_trees", 1);
+        if let Err(e) = watch.guarded(&case, || check_valid(&b.doc, &want, max_calls)) {
+            run.fail(None, case, &e, "page_iter() = depth-first left-to-right Page leaves; get_pages() = that list numbered 1..n");
+        }
+    });
+}
+
+// ---------------------------------------------------------------------------------------------
 // document-level reference model: reads the public `objects` / `trailer` maps only (none of
 // lopdf's lookup helpers), so it can describe a document after any edit
 
@@ -907,6 +987,16 @@ fn resolve<'a>(doc: &'a Document, mut o: &'a Object) -> Result<(Option<ObjectId>
     Ok((id, o))
 }
 
+/// An entry naming an object (a kid, the catalog's Pages, the trailer's Root): the named object is
+/// looked up, and if it is itself a bare reference up to DEREF further hops are followed - the
+/// way Document::get_object counts. Returns the id of the final object and its value.
+fn resolve_entry<'a>(doc: &'a Document, entry: &'a Object) -> Result<(ObjectId, &'a Object), String> {
+    let Object::Reference(r) = entry else { return Err("entry that is not a reference".into()) };
+    let o = doc.objects.get(r).ok_or_else(|| format!("reference {} {} R to a missing object", r.0, r.1))?;
+    let (id, v) = resolve(doc, o)?;
+    Ok((id.unwrap_or(*r), v))
+}
+
 /// The id a yielded id stands for: the object itself, or the end of the chain of bare references stored under it.
 fn resolve_id(doc: &Document, id: ObjectId) -> ObjectId {
     match doc.objects.get(&id) {
@@ -922,14 +1012,11 @@ fn model_pages(doc: &Document) -> Result<Vec<ObjectId>, String> {
         if depth > 2000 {
             return Err("page tree deeper than 2000 levels (cycle?)".into());
         }
-        if !matches!(entry, Object::Reference(_)) {
-            return Err("kid entry that is not a reference".into());
-        }
-        let (id, node) = resolve(doc, entry)?;
+        let (id, node) = resolve_entry(doc, entry)?;
         let Object::Dictionary(d) = node else { return Err("page tree node that is not a dictionary".into()) };
         match d.get(b"Type") {
             Ok(Object::Name(n)) if n == b"Page" => {
-                out.push(id.unwrap());
+                out.push(id);
                 Ok(())
             }
             Ok(Object::Name(n)) if n == b"Pages" => {
@@ -945,7 +1032,7 @@ fn model_pages(doc: &Document) -> Result<Vec<ObjectId>, String> {
         }
     }
     let root = doc.trailer.get(b"Root").map_err(|_| "trailer without Root".to_string())?;
-    let (_, cat) = resolve(doc, root)?;
+    let (_, cat) = resolve_entry(doc, root)?;
     let Object::Dictionary(cat) = cat else { return Err("catalog is not a dictionary".into()) };
     let pages = cat.get(b"Pages").map_err(|_| "catalog without Pages".to_string())?;
     let mut out = vec![];
@@ -1956,6 +2043,12 @@ fn replay(run: &Run, path: &std::path::Path) -> ! {
                 }
             }
         }
+        Some("wide") => {
+            let t = wide_tree(case["form"].as_str().unwrap_or(""), case["width"].as_u64().unwrap_or(1) as usize, case["indirect"].as_bool().unwrap_or(false));
+            let b = build(&t, case["rev"].as_bool().unwrap_or(false));
+            let want = expected_pages(&t, &b);
+            say("wide tree", check_valid(&b.doc, &want, &dummy).map(|_| format!("{} pages in depth-first order", want.len())));
+        }
         Some("history") => {
             let spec = |tk: &str, rk: &str| {
                 let t = Tree::from_json(&case[tk]);
@@ -2019,9 +2112,29 @@ fn main() {
          Type missing/Foo/swapped/integer on every node; Kids missing/integer/dictionary/reference to a dictionary/dangling/nested array; \
          Count +1/-1/negative/real/name/missing/2^62/10^12/i64::MAX/reference to 2^62; catalog Pages missing/integer/direct dictionary/dangling/\
          a Page; trailer Root missing/dangling) of every such tree with <= {} nodes. Non-trivial = the tree has at least one intermediate \
-         (non-root) Pages node; distinct = counted once per document digest (two mutations that produce the same document count once)",
-        b.valid_nodes, b.mutated_nodes
+         (non-root) Pages node; distinct = counted once per document digest (two mutations that produce the same document count once). \
+         Wide trees: 255, 256, 257, 1000 (thorough: + 1023, 1024, 1025, 4096, 20000) kids under the root - all pages / sqrt(w) Pages nodes sharing w pages, \
+         each followed by a page / pages alternating with empty Pages nodes - x Kids direct/indirect x ids ascending/reversed. \
+         History: every ORDERED pair (A, B) of valid trees with <= {} nodes (x ids ascending/reversed) in 8 sequences on ONE Document value - enumerate A, \
+         turn the document into B through the public fields (entry by entry: objects.remove / get_mut / insert, trailer.set; or by assigning objects and \
+         trailer wholesale), enumerate again; only page_iter() before the edit; edit a clone of the enumerated document (and re-check the original); clone \
+         after the edit; A -> B -> A; delete_object/set_object first and a field edit back; get_pages() twice before the edit - and every ordered pair with \
+         <= {} nodes in the first two sequences; non-trivial = A and B enumerate differently. Single edits: every valid tree with <= {} nodes x ids \
+         ascending/reversed x every edit (a new page at every position of every Pages node; every kid removed; every kid moved to the end of every Pages \
+         node outside its subtree; every Kids array reversed; the catalog's Pages pointed at every intermediate node; a new catalog for every Pages node \
+         installed through trailer.set) x {{in place, on a clone, only page_iter() before}}, and x 16 mutating-method steps between two enumerations \
+         (renumber_objects, renumber_objects_with, twice with get_pages between, delete_pages first/last/all, delete_object of the first page, prune_objects, \
+         add_object, new_object_id, compress, set_object / get_object_mut reversing the root kids, clone, a page added by add_object + field edit, \
+         renumbering followed by a field edit). Reference chains: every valid tree with <= {} nodes x ids ascending/reversed x every link (each Kids value, \
+         each kid entry, each Count, each Parent, the catalog's Pages, the trailer's Root, all links at once, all kid entries at once) reached through \
+         h hops of bare-reference objects, h in {{0,1,2,3,16,64,126,127,128}} with an exact verdict (also on a clone) and 129 (thorough: 130, 131, 200, 300) \
+         without one; distinct by construction",
+        b.valid_nodes, b.mutated_nodes,
+        if run.thorough { 4 } else { 3 }, if run.thorough { 5 } else { 4 }, if run.thorough { 6 } else { 5 }, if run.thorough { 5 } else { 4 }
     ));
+    run.assume("lopdf follows a chain of at most Document::DEREF_LIMIT = 128 reference hops (the hops counted by Document::dereference: for a Kids or Count value from the value itself, for a kid entry / Pages / Root from the object the entry names); observed on this build: 128 hops enumerate fully and 129 do not, at every kind of link (recorded under largest_hop_count_with_full_enumeration_observed). A tree with a longer chain is outside the domain: it is counted, and only termination and type safety are demanded");
+    run.assume("an id whose object is a chain of bare references ending at a Page dictionary denotes that page (ISO 32000-1 7.3.10: a reference stands for the object it names; Document::get_object resolves it): when a kid ENTRY is such a chain, page_iter()/get_pages() may yield the entry's id or the page's own id");
+    run.assume("history and edit families: the reference after an edit is a depth-first walk written in the harness over the public objects/trailer maps (cross-checked against the tree-level model before every edit), and get_pages() of a Document assembled from scratch out of the same objects and trailer");
     run.assume("valid = every node typed, Kids arrays of references to tree nodes, at most 256 sibling lists pending at once (PAGE_TREE_DEPTH_LIMIT bounds the code's stack of pending sibling lists); beyond that and for malformed trees only termination within objects.len()+1 calls of next(), type safety of the yielded ids and absence of panics are demanded");
     run.assume("get_pages() on a tree with an extreme /Count is executed only in child processes of this binary under RLIMIT_AS = 2 GiB; an abort, signal or non-zero exit of the child is the failing outcome");
     run.assume("/Count is correct in valid trees; the root of the tree is always a Pages node");
@@ -2032,6 +2145,7 @@ fn main() {
         explore_valid(&run, &b, &max_calls, &watch);
         run.set("wall_after_valid_s", json!((run.elapsed() * 10.0).round() / 10.0));
         explore_chains(&run, &max_calls, &watch);
+        explore_wide(&run, &max_calls, &watch);
         run.set("wall_after_chains_s", json!((run.elapsed() * 10.0).round() / 10.0));
         explore_malformed(&run, &b, &max_calls, &watch);
         run.set("wall_after_malformed_s", json!((run.elapsed() * 10.0).round() / 10.0));
